@@ -26,7 +26,7 @@ USER_GDEF = {
     "carets": "table GDEF { LigatureCaretByPos f_i 123 456; } GDEF;\n",
 }
 CARET_NAMES = ["caret_1", "caret_2", "caret_3", "caret_4", "vcaret_1", "vcaret_2"]
-CARET_COORDS = [100, 300, 300.5, 50]
+CARET_COORDS = [100, 300, 300.5, 50, 0, -40]
 CURS_GLYPHS = [("a", 0x61), ("beh-ar", 0x628), ("period", 0x2E), ("x.alt", None)]
 CURS_SHAPES = ["none", "entry", "exit", "both", "ltr", "rtl"]
 ENTRY, EXIT = (0, 10.5), (500.5, -0.5)
@@ -82,6 +82,16 @@ class C18(Property):
             if combo[0] == 0:
                 # a font without any left-to-right glyph at all (the Latin glyph is absent)
                 out.append([{"part": "curs", "shapes": list(combo), "gsub": False, "nolatin": True}])
+        # cursive through the per-master designspace path, where a designspace rule (a -> x.alt) makes
+        # the unencoded alternate a glyph of a left-to-right script
+        for combo in itertools.product(range(len(CURS_SHAPES)), repeat=len(CURS_GLYPHS)):
+            if combo[3] == 0:
+                continue  # x.alt must carry cursive anchors for the rule to matter
+            if combo[2] != 0 and b["tier"] == "quick":
+                continue
+            for rule in (False, True):
+                out.append([{"part": "curs", "shapes": list(combo), "gsub": False, "ds_rule": rule, "ds": True}])
+                out.append([{"part": "curs", "shapes": list(combo), "gsub": False, "ds_rule": rule, "ds": "var"}])
         return out
 
     def ops(self, h, b):
@@ -185,15 +195,30 @@ class C18(Property):
         spec = {"glyphs": glyphs, "order": list(glyphs)}
         if c["gsub"]:
             spec["features"] = "feature salt { sub a by x.alt; } salt;\n"
-        tt = compile_reload(spec)
+        if c.get("ds"):
+            import ufo2ft
+            rules = [{"name": "r", "conditionSets": [[{"name": "Weight", "minimum": 600, "maximum": 700}]],
+                      "subs": [("a", "x.alt")]}] if c["ds_rule"] else None
+            spec2 = dict(spec, info={"styleName": "Bold"})
+            ds = B.build_designspace([{"name": "Weight", "tag": "wght", "min": 400, "default": 400, "max": 700}],
+                                     [{"spec": spec, "location": {"Weight": 400}},
+                                      {"spec": spec2, "location": {"Weight": 700}}], rules=rules)
+            if c["ds"] == "var":
+                tt = O.reload(ufo2ft.compileVariableTTF(ds, useProductionNames=False))
+            else:
+                out = ufo2ft.compileInterpolatableTTFsFromDS(ds, useProductionNames=False)
+                tt = O.reload(out.sources[1].font)
+        else:
+            tt = compile_reload(spec)
         lay = O.Layout(tt)
         recs = lay.cursive_records()
         rE, rX = (otround(ENTRY[0]), otround(ENTRY[1])), (otround(EXIT[0]), otround(EXIT[1]))
-        ltr_glyphs = {"a"} | ({"x.alt"} if c["gsub"] else set())
+        ltr_glyphs = {"a"} | ({"x.alt"} if c["gsub"] or c.get("ds_rule") else set())
         has_entry = any(s in ("entry", "both") for s in shapes.values())
         has_exit = any(s in ("exit", "both") for s in shapes.values())
         viols = []
-        feat = {"gsub": c["gsub"], "nolatin": bool(c.get("nolatin"))}
+        feat = {"gsub": c["gsub"], "nolatin": bool(c.get("nolatin")), "ds": c.get("ds") or False,
+                "ds_rule": bool(c.get("ds_rule"))}
         # expected records: (glyph, entry, exit, rtl flag)
         want = set()
         for n, sh in shapes.items():
